@@ -350,7 +350,9 @@ def replay(cex, native):
             for (e, inp), line in zip(runs, lines):
                 want = py_v2x(inp) if e == 'v2x' else py_tlvx(inp)
                 if line != want:
-                    bad = 'native `%s` vs reference `%s`' % (line[:300], want[:300])
+                    ta, tb = line.split(' '), want.split(' ')
+                    diff = [(x, y) for x, y in zip(ta, tb) if x != y][:4]
+                    bad = 'native vs reference differ in %s (native `%s...`)' % ('; '.join('%s / %s' % (x[:60], y[:60]) for x, y in diff) or 'length', line[:80])
         elif k == 'v2_rebuild':
             if not lines[0].startswith('rebuild') or '0' in lines[0].split(' ', 1)[1].replace('a=', '').replace('b=', '').replace('c=', '').replace('d=', '') or 'E' in lines[0].split(' ', 1)[1]:
                 bad = lines[0]
@@ -801,10 +803,39 @@ def ob_rebuild(prog, max_items=2):
 
 
 # ------------------------------------------------------------------ validation of the v2 encoding against the native crate
+def predict_line(ctx, p, m):
+    """the beginning of the `v2x` line that the *encoding* predicts for path p under model m (verdict, payload,
+    decoded fields, flags) - independent of the reference decoder, so that it is meaningful on edited code too"""
+    ev = lambda x: x if isinstance(x, int) and not isinstance(x, bool) else m.eval(Z(x), model_completion=True).as_long()
+    tf = lambda x: 'true' if x else 'false'
+    f = p.note('flags')
+    flags = 'inc=%s comp=%s' % (tf(f[1]), tf(f[2])) if f else ''
+    if p.kind() == 'Panic':
+        return 'Panic'
+    if p.kind() == 'Err':
+        e = p.err()
+        pay = '(%s)' % ','.join(str(ev(x)) for x in e.fields) if e.fields else ''
+        return 'Err %s%s %s' % (e.variant, pay, flags)
+    h = p.result().fields[0]
+    hd = h.get('header').fields[0]
+    a = h.get('addresses')
+    parts = []
+    if a.variant in ('IPv4', 'IPv6'):
+        ip = a.fields[0]
+        parts = [ev(x) for x in octs_of(ip.get('source_address'))] + [ev(x) for x in octs_of(ip.get('destination_address'))]
+        for nm in ('source_port', 'destination_port'):
+            v = ev(ip.get(nm))
+            parts += [v >> 8, v & 255]
+    elif a.variant == 'Unix':
+        parts = [ev(x) for x in a.fields[0].get('source').items] + [ev(x) for x in a.fields[0].get('destination').items]
+    return 'Ok hdr=%d:%d ver=2 cmd=%d tr=%d fam=%d addr=%s %s' % (ev(hd.start), ev(hd.end) - ev(hd.start), CMDNAME.index(h.get('command').variant), TRNAME.index(h.get('protocol').variant),
+                                                                 FAMNAME.index(a.variant), bytes(parts).hex(), flags)
+
+
 def validate(prog, ctx, paths, native):
-    """one witness per path: the encoding's predicted verdict, the Python reference and the natively compiled
-    crate (dev + release) must agree (Serval-style)"""
-    rf = Ref2(ctx)
+    """one witness per path: what the encoding predicts for that input (verdict, payload, decoded fields, header
+    slice, flags) must be what the natively compiled crate (dev + release) returns (Serval-style validation of the
+    translator and the models; the reference decoder plays no part here)"""
     reqs = []
     for p in paths:
         s = z3.Solver()
@@ -812,27 +843,22 @@ def validate(prog, ctx, paths, native):
             s.add(a)
         for c in p.pc:
             s.add(c)
+        s.push()
         s.add(ctx.L <= 4096)
         if s.check() != z3.sat:
-            s = z3.Solver()
-            for a in ctx.axioms:
-                s.add(a)
-            for c in p.pc:
-                s.add(c)
+            s.pop()
             s.add(ctx.L <= REPLAY_CAP)
             if s.check() != z3.sat:
                 continue
-        b = model_input(s.model(), ctx)
-        reqs.append((p, b))
+        m = s.model()
+        b = model_input(m, ctx)
+        reqs.append((p, b, predict_line(ctx, p, m)))
     n = 0
     for prof in ('dev', 'release'):
-        lines = native([('v2x', b) for _, b in reqs], prof)
-        for (p, b), line in zip(reqs, lines):
-            want = py_v2x(b)
-            k = p.kind()
-            pred = 'Panic' if k == 'Panic' else ('Ok' if k == 'Ok' else 'Err ' + p.err().variant)
-            if line != want or not line.startswith(pred):
-                raise Unsupported('v2 encoding / reference / native crate disagree (%s build) on %s: path predicts `%s`, reference `%s`, native `%s`' % (prof, b[:40].hex(), pred, want[:160], line[:160]))
+        lines = native([('v2x', b) for _, b, _ in reqs], prof)
+        for (p, b, pred), line in zip(reqs, lines):
+            if not line.startswith(pred):
+                raise Unsupported('v2 encoding disagrees with the native crate (%s build) on the %d-byte input %s: the encoding predicts `%s`, the real code gives `%s`' % (prof, len(b), b[:40].hex(), pred[:200], line[:200]))
             n += 1
     return n
 
